@@ -1456,7 +1456,13 @@ bool DBObject::isValid()
 {
 	MutexLocker lock(_mutex);
 
-	return _objectId != 0 && _connection != NULL && !_readFailed;
+	if (_objectId == 0 || _connection == NULL || _readFailed) return false;
+
+	// Another process that shares the database may have destroyed the object
+	DB::Statement statement = _connection->prepare("select id from object where id=%lld", _objectId);
+	if (!statement.isValid()) return false;
+	DB::Result result = lookup(statement, _readFailed, _objectId);
+	return result.isValid() && result.getLongLong(1) == _objectId;
 }
 
 // Start an attribute set transaction; this method is used when - for
